@@ -47,6 +47,12 @@ Unit-specific hooks (attributes of pygal.Ext, on top of the ones pygal.py docume
   fact_test(fn, g, t, env, kt, kf)   the truthiness test of a Boolean carrying a `fact` (see pygal.tr_test)
   except_classes           {python class name: Gallina predicate on exceptions}   (default: only `Exception`)
   exc_new(fn, node, env)   -> None | Gallina text of a freshly constructed exception (node = the operand of `raise`)
+  stmt_m(fn, s, rest, env, k, live, live_rest) -> None | Gallina text of the block `s; rest`      [srcpm]
+                              consulted first for every statement: statement forms only that unit translates (`while`,
+                              `continue`, other loops, subscripted stores, tests / arguments that call primitives - see
+                              pygal_procman.py); None = the statement is translated as usual
+  live_in(stmts, live)     -> the names that may be read by `stmts` or after them (`live`): a sharper liveness analysis
+                              than the default "every name that occurs"                            [srcpm]
 Function spec keys on top of pygal's: "ret" (Ty: the function returns a value), "vararg" / "kwarg" ((name, Ty): the
 function has *name / **name, handed to the Gallina function as ordinary parameters of that opaque type; only the
 unit's primitives can look at them), "gparams" (text of extra implicit binders, e.g. "{pval : Type}").
@@ -91,6 +97,8 @@ def assigned(fn, stmts):
             out |= assigned(fn, s.body) | assigned(fn, s.orelse)
             if isinstance(s.target, ast.Name):
                 out.add(s.target.id)
+        elif isinstance(s, ast.While):       # [srcpm] `while` is translated by a unit hook (Ext.stmt_m); its body re-binds
+            out |= assigned(fn, s.body) | assigned(fn, s.orelse)
         elif isinstance(s, ast.Expr) and getattr(fn.ext, "mutates", None) is not None:
             out |= set(fn.ext.mutates(s))
     return out
@@ -203,9 +211,18 @@ def tr_block(fn, stmts, env, k, live):
         return k(env)
     s, rest = stmts[0], stmts[1:]
     live_rest = names_used(rest) | live
+    if getattr(fn.ext, "live_in", None) is not None:     # [srcpm] a unit may supply a sharper liveness analysis
+        live_rest = fn.ext.live_in(rest, live)
     cont = lambda e: tr_block(fn, rest, e, k, live)      # noqa: E731
     if isinstance(s, ast.Expr) and isinstance(s.value, ast.Constant) and isinstance(s.value.value, str):
         return cont(env)                                 # docstring
+    # [srcpm] unit-specific statement forms (Ext.stmt_m(fn, s, rest, env, k, live, live_rest) -> text | None): `while`,
+    # `continue`, loops over other iterables, subscripted stores, tests / arguments that call primitives
+    hook = getattr(fn.ext, "stmt_m", None)
+    if hook is not None:
+        r = hook(fn, s, rest, env, k, live, live_rest)
+        if r is not None:
+            return r
     if is_logging(s) or isinstance(s, ast.Pass):
         return cont(env)                                 # logging does not influence the effects
     if isinstance(s, ast.Return):
